@@ -57,3 +57,5 @@ package best
 //@   // received and no received response scores higher
 //@   ensures opts != nil ==> (result1 != nil <==> n == 0)
 //@   ensures result1 == nil ==> result0 != nil && result0.Data != nil && got[result0.Data][bestScore] && (forall d *phase0.Attestation, x float64 :: got[d][x] ==> x <= bestScore)
+//@   // C07: the nodes are given until the strategy's own (hard) timeout to answer, not only until its soft timeout
+//@   at call go#1: assert arg1 == ctx
